@@ -261,6 +261,8 @@ package cache
 //@   modifies sync.rwheld
 //@   opt trusted_frame
 
+//@ func SubCache.resolvers
+//@   modifies nothing
 //@ func (*RepoCacheBug).Query
 //@   props C18
 //@   opt locks
@@ -471,6 +473,9 @@ package cache
 //@     invariant match == (forall k int :: { filters[k] } 0 <= k && k <= rangeindex ==> filters[k](excerpt, resolvers))
 // ... and across groups: status, author, metadata, participant and actor are any-of groups; labels, the
 // "no" filters and titles are all-of groups; a bug matches when every group does.
+// matchOf: the verdict of a matcher on an excerpt - a function of both (and of the resolvers) as long as neither
+// is modified, which holds while a query has the sub-cache read-locked (assumed).
+//@ spec func matchOf(f *Matcher, excerpt *BugExcerpt, resolvers entity.Resolvers) bool
 //@ func (*Matcher).Match
 //@   props C12
 //@   nopanic
@@ -479,6 +484,7 @@ package cache
 //@   requires f != nil
 //@   requires [filters-set] (forall k int :: { f.Status[k] } 0 <= k && k < len(f.Status) ==> f.Status[k] != nil) && (forall k int :: { f.Author[k] } 0 <= k && k < len(f.Author) ==> f.Author[k] != nil) && (forall k int :: { f.Metadata[k] } 0 <= k && k < len(f.Metadata) ==> f.Metadata[k] != nil) && (forall k int :: { f.Actor[k] } 0 <= k && k < len(f.Actor) ==> f.Actor[k] != nil) && (forall k int :: { f.Participant[k] } 0 <= k && k < len(f.Participant) ==> f.Participant[k] != nil) && (forall k int :: { f.Label[k] } 0 <= k && k < len(f.Label) ==> f.Label[k] != nil) && (forall k int :: { f.Title[k] } 0 <= k && k < len(f.Title) ==> f.Title[k] != nil) && (forall k int :: { f.NoFilters[k] } 0 <= k && k < len(f.NoFilters) ==> f.NoFilters[k] != nil)
 //@   modifies nothing
+//@   defines [verdict-is-a-function] result == matchOf(f, excerpt, resolvers)
 //@   ensures [groups] result == ((len(f.Status) == 0 || (exists k int :: { f.Status[k] } 0 <= k && k < len(f.Status) && f.Status[k](excerpt, resolvers))) && (len(f.Author) == 0 || (exists k int :: { f.Author[k] } 0 <= k && k < len(f.Author) && f.Author[k](excerpt, resolvers))) && (len(f.Metadata) == 0 || (exists k int :: { f.Metadata[k] } 0 <= k && k < len(f.Metadata) && f.Metadata[k](excerpt, resolvers))) && (len(f.Participant) == 0 || (exists k int :: { f.Participant[k] } 0 <= k && k < len(f.Participant) && f.Participant[k](excerpt, resolvers))) && (len(f.Actor) == 0 || (exists k int :: { f.Actor[k] } 0 <= k && k < len(f.Actor) && f.Actor[k](excerpt, resolvers))) && (forall k int :: { f.Label[k] } 0 <= k && k < len(f.Label) ==> f.Label[k](excerpt, resolvers)) && (forall k int :: { f.NoFilters[k] } 0 <= k && k < len(f.NoFilters) ==> f.NoFilters[k](excerpt, resolvers)) && (forall k int :: { f.Title[k] } 0 <= k && k < len(f.Title) ==> f.Title[k](excerpt, resolvers)))
 
 // A filter constructor returns a closure over its argument only: equal arguments give interchangeable filters.
